@@ -20,7 +20,7 @@ CLAIMS = {
          "Tie: exhaustive grid + boundary + random E-pure; C05.ok judges the real match_against.",
          "Lean 4 proof (grind/omega over the model) + exhaustive-grid differential correspondence with Lean judge", "DESIGN §6 C05"),
  "C06": ("The model's match loop is a total function accepted with a lexicographic measure (remaining + hidden, tickets) for every state; theorems: exhaustion of displayed "
-         "liquidity and executed >= min(requested, displayed) from every well-formed state and over histories. Tie: E-seq0 with a per-op watchdog (a call that does not return is a violation with replay); C06.ok judges every real match.",
+         "liquidity and executed >= min(requested, displayed) from every well-formed state and over histories. Tie: E-seq0 with a per-op watchdog (a call that does not return is a violation with replay) and E-deep (one call re-queueing the same maker 66 000-90 000 times); C06.ok judges every real match.",
          "Lean 4 termination proof + loop invariant; differential correspondence with hang detection", "DESIGN §6 C06"),
  "C07": ("Theorems: cancel/move return and remove exactly the stored order, absent id changes nothing, same-price price update rejected, amend result per kind with identity fields and other orders untouched, "
          "a removed id never trades again along any history that does not re-add it, reads are the identity. Tie: E-seq/E-seq0 with all five update kinds and reads inserted at random; C07.ok judges every real update.",
@@ -29,16 +29,16 @@ CLAIMS = {
          "Tie: E-seq/E-seq0 (C15.ok judged after every op) and E-conc (statistics steps compared event for event under the scheduler, C15.ok judged at quiescence of every concurrent run).",
          "Lean 4 proof by loop invariant + induction over histories, and an inductive invariant over all schedules; differential correspondence with Lean judge", "DESIGN §6 C15, §11.3"),
  "C04": ("The full property is false of the crate (two characterised deviations, recorded as known findings F1/F2 with Lean counterexamples evaluated on the model and replayed on the crate). Proved: C04_partial — every maker visit takes the head of the hand-out order; leave / replenish-requeue / add / cancel / same-price amend act on the hand-out order exactly as the property prescribes unless F1 or F2. "
-         "Not proved: composition of the per-visit lemmas over a whole match call. Tie: E-seq maker sequences compared with the model, deviations classified by the driver.",
+         "Composed over a whole match call of any length (C04_loop_sweeps, C04_match_composed): the loop's visits are exactly successive heads of the hand-out order, each visited maker leaving, going to the tail (refresh / replenish / partial fill) or being set aside, and the set-aside orders return behind everything else in the order they were met. Tie: E-seq maker sequences compared with the model, deviations classified by the driver.",
          "Lean 4 proof (refinement lemmas on the hand-out order, counterexamples by evaluation) + differential correspondence; known findings", "DESIGN §6 C04"),
  "C19": ("Theorems: refinement of the ticket queue to an abstract FIFO for every operation sequence whose pushes do not re-use a ticketed id (C19_refines/C19_history); for all sequences find/remove/len/is_empty/to_vec see exactly the queued orders; from_vec hands out in list order; decide'd counterexample for the stale-ticket re-push (known finding). "
-         "Tie: E-seq on the exported OrderQueue, every answer compared with the model and judged against the abstract FIFO run by the driver.",
+         "Tie: E-seq on the exported OrderQueue incl. rebuilds through from_vec / From<Vec> / text / JSON (from_str, from_value, from_reader, escaped text), every answer compared with the model and judged against the abstract FIFO run by the driver.",
          "Lean 4 refinement proof + differential correspondence with Lean FIFO judge; known finding", "DESIGN §6 C19"),
  "C10": ("Theorems: for every well-formed level (hence every state reachable by an admissible history) rebuilding from its own snapshot or by re-adding its listing yields the same price, the same orders (as a permutation / same lookup for every id), the same aggregates and a well-formed level; carried aggregates are ignored; the listing is a duplicate-free permutation of the map sorted by timestamp. "
          "Tie: E-seq with seven constructor routes + lying data at random points of random histories; judged on the real crate. The byte-level codecs the routes pass through are C16/C17.",
          "Lean 4 proof (permutation/sum lemmas over constructors) + differential correspondence with judge", "DESIGN §6 C10"),
  "C11": ("The full property is false of the crate (known finding, Lean counterexample evaluated on the model and replayed on the crate). Proved: C11_partial — the restored level hands out its orders exactly in snapshot (timestamp) order, so it reproduces the original's order iff the original's hand-out order equals its listing. "
-         "Not proved: lifting to equal outputs for every continuation. Tie: E-seq with a forked real level restored from the snapshot and fed the same continuation; differences classified by the driver.",
+         "Lifted to continuations (C11_matches, by a lockstep simulation of the two match loops): whenever the original's hand-out order equals its listing and ids are unique, ANY sequence of later matches yields the same transactions, remaining quantities, filled lists and final order sets on both levels (statistics aside, which a snapshot does not carry). Tie: E-seq with a forked real level restored from the snapshot and fed the same continuation; differences classified by the driver.",
          "Lean 4 proof (partial) + counterexample by evaluation + differential correspondence on two real levels; known finding", "DESIGN §6 C11"),
  "C03": ("Theorems over the Lean small-step model for EVERY schedule, any number of threads/ops: the inductive invariant CInv (each 64-bit counter = sum over the map + every thread's credit, modulo 2^64; every order id in exactly one place), the supply potential never grows (BInv), hence at every point the stored counters are the exact un-wrapped quantities and at quiescence the aggregates equal the sums over the resting orders (C03_quiescent); and the per-order ledger (C03_ledger, C03_ledger_prefix): for every order id, at every point of every schedule, resting + held by threads + executed + handed back by cancels + discarded hidden (+ amended down) = initial + supplied by adds (+ amended up), with nothing held at quiescence — no unit executed twice, handed to two cancellers, or lost. "
          "Events of the ledger are counted where they happen in the model; on real executions the same ledger is judged from return values (C03.idOk). Tie: real threads under a deterministic scheduler, event traces compared step by step with the model.",
